@@ -43,8 +43,13 @@ void h08a(void) {
     }
     bool hdb = zck_generate_hashdb(S.z);
     OBLIGE(hdb, "C08/source-hash-table-built");
+#ifdef FAULTS
+    vf_fault_mode = 1;          /* C12: every read / write / lseek on either file may fail or be short from here on */
+#endif
     bool ok = zck_copy_chunks(S.z, T.z);
+#ifndef FAULTS
     OBLIGE(ok, "C08/copy-returns");
+#endif
     OBLIGE(!hm_overflow, "C08/model-capacity");
     /* source untouched */
     OBLIGE(vf_nwrite[0] == 0 && vf_ntrunc[0] == 0 && vf_size[0] == sfsz, "C08/source-file-never-written");
@@ -82,7 +87,9 @@ void h08a(void) {
         if(c->valid == -1 && IN_tvalid[i] != -1) {
             int z = 1;
             for(size_t k = 0; k < CMAX; k++) if(k < c->comp_length && off + k < FCAP && vf_data1[off + k] != 0) z = 0;
+#ifndef FAULTS
             OBLIGE(z, "C08/failed-chunk-is-zero-filled");
+#endif
             WITNESS("h08a-failed");
         }
     }
